@@ -248,6 +248,16 @@ def ownership_arm_rule(F, R, rid="C03.s"):
                     if re.search(r"todo|unimplemented", bx.get("mac", "")) and "panic" in bx["callee"]:
                         unfinished = True
                     if not re.search(COLLECTION_CRATES, bx["callee"]):
+                        # a helper of the repository that the arm hands the collection to (one arm extracted into a
+                        # function): its mutators count for the arm; argument / guard provenance is not compared there
+                        hf = F.fns.get(bx["callee"])
+                        if hf is not None and hf.name.startswith("steel::primitives::") and len(hf.blocks) < 60:
+                            for _, hb in lib.deep_calls(F, hf, depth=1):
+                                hs = lib.split_path(hb["callee"])[-1]
+                                if re.search(COLLECTION_CRATES, hb["callee"]) and hs in MUTATOR_NAMES:
+                                    muts.append((CANON.get(hs, hs), hs, None, None, bx["line"]))
+                                if re.search(COLLECTION_CRATES, hb["callee"]) and hs in ("new", "default", "new_in"):
+                                    fresh = True
                         continue
                     short = lib.split_path(bx["callee"])[-1]
                     if short in ("new", "default", "new_in") :
@@ -295,6 +305,8 @@ def ownership_arm_rule(F, R, rid="C03.s"):
                 for cname in names_s:
                     a_s = [m for m in ms if m[0] == cname]
                     a_n = [m for m in mn if m[0] == cname]
+                    if any(m[2] is None for m in a_s + a_n):
+                        continue          # one side lives in a helper: names agree, provenance not compared
                     if len(a_s[0][2]) == len(a_n[0][2]):
                         # position by position the same parameter reaches both calls (an arm may clamp with a length as well)
                         for k in range(len(a_s[0][2])):
